@@ -2,13 +2,16 @@ package query
 
 // Replay driver for the Worker part of the WorkManager family (C12): paths of
 // specs/WorkManager/Worker.tla are executed against the REAL worker.Run with
-// a mock Peer, millisecond job timeouts and a buffered results channel.
+// a mock Peer, millisecond job timeouts and an UNBUFFERED results channel
+// that the driver reads like the dispatcher does (and stops reading in the
+// QuitDuring steps, like a dispatcher that has already returned).
 
 import (
 	"bufio"
 	"encoding/json"
 	"os"
 	"runtime"
+	"strings"
 	"sync"
 	"sync/atomic"
 	"testing"
@@ -85,6 +88,7 @@ type wkEnv struct {
 	T, hang      time.Duration
 	cancel, ic   chan struct{}
 	timing       bool
+	gate         chan struct{} // when set, the finishing handler waits here
 }
 
 func (e *wkEnv) observe() wkObs {
@@ -141,7 +145,8 @@ func (e *wkEnv) exec(want wkAct) (out wkStepOut, cont bool) {
 	default:
 	}
 	wasShort := e.working && e.short
-	if want.Op != "Timeout" && e.lateForShort() {
+	waitsOut := want.Op == "Timeout" || (want.Op == "QuitDuring" && want.X == 4)
+	if !waitsOut && e.lateForShort() {
 		e.timing = true
 		return out, false
 	}
@@ -164,6 +169,9 @@ func (e *wkEnv) exec(want wkAct) (out wkStepOut, cont bool) {
 			ping, _ := resp.(*wire.MsgPing)
 			switch {
 			case ping != nil && ping.Nonce == 2:
+				if g := e.gate; g != nil {
+					<-g
+				}
 				atomic.AddInt32(&e.fin, 1)
 				return Progress{Finished: true, Progressed: true}
 			case ping != nil && ping.Nonce == 1:
@@ -218,6 +226,18 @@ func (e *wkEnv) exec(want wkAct) (out wkStepOut, cont bool) {
 					e.working = false
 				}
 			}
+		case r := <-e.results:
+			// the worker hands back a result instead of taking the message
+			k := wmVerdictKind(r.err)
+			if k > 3 {
+				k = -1
+			}
+			e.res = append(e.res, k)
+			if wasShort {
+				e.timing = true
+				return out, false
+			}
+			e.working = false
 		case <-time.After(e.hang):
 			act.Res = "hang"
 			cont = false
@@ -251,6 +271,50 @@ func (e *wkEnv) exec(want wkAct) (out wkStepOut, cont bool) {
 			cont = false
 		}
 		e.working = false
+	case "QuitDuring":
+		// Nobody receives results any more.  Bring the worker to the point
+		// where it has a result to hand back, close quit, expect Run to return.
+		switch want.X {
+		case 0:
+			e.gate = make(chan struct{})
+			select {
+			case e.peer.msgs <- &wire.MsgPing{Nonce: 2}:
+				close(e.quit) // while the handler is still running
+				close(e.gate)
+				<-e.hsig
+			case <-time.After(e.hang):
+				close(e.quit)
+			}
+		case 1:
+			select {
+			case e.peer.msgs <- &wire.MsgPing{Nonce: 2}:
+				<-e.hsig
+			case <-time.After(e.hang):
+			}
+			time.Sleep(2 * time.Millisecond)
+			close(e.quit)
+		case 2:
+			close(e.peer.disc)
+			time.Sleep(2 * time.Millisecond)
+			close(e.quit)
+		case 3:
+			close(e.cancel)
+			time.Sleep(2 * time.Millisecond)
+			close(e.quit)
+		case 4:
+			if d := time.Until(e.tArm.Add(e.T + e.T/4 + 2*time.Millisecond)); d > 0 {
+				time.Sleep(d)
+			}
+			close(e.quit)
+		}
+		select {
+		case <-e.done:
+		case <-time.After(e.hang):
+			act.Res = "hang"
+			out.Dump = wkDump()
+			cont = false
+		}
+		e.working = false
 	case "Quit":
 		close(e.quit)
 		select {
@@ -261,7 +325,7 @@ func (e *wkEnv) exec(want wkAct) (out wkStepOut, cont bool) {
 	}
 	// A short job timeout must not have been able to expire inside a step
 	// that is not the Timeout step: otherwise this attempt is void.
-	if want.Op != "Timeout" && (wasShort || (e.working && e.short)) && time.Since(e.tArm) > e.T*8/10 {
+	if !waitsOut && !(want.Op == "QuitDuring" && act.Res == "hang") && (wasShort || (e.working && e.short)) && time.Since(e.tArm) > e.T*8/10 {
 		e.timing = true
 		return out, false
 	}
@@ -283,11 +347,28 @@ func (e *wkEnv) exec(want wkAct) (out wkStepOut, cont bool) {
 	return
 }
 
+// wkDump: the goroutines sitting in worker.Run.
+func wkDump() string {
+	buf := make([]byte, 1<<22)
+	buf = buf[:runtime.Stack(buf, true)]
+	var keep []string
+	for _, g := range strings.Split(string(buf), "\n\n") {
+		if strings.Contains(g, "query.(*worker).Run") {
+			keep = append(keep, g)
+		}
+	}
+	s := strings.Join(keep, "\n\n")
+	if len(s) > 6000 {
+		s = s[:6000]
+	}
+	return s
+}
+
 func wkRunPath(p *wkPathIn, T, hang time.Duration) (out wkPathOut, timing bool) {
 	out.ID = p.ID
 	e := &wkEnv{
 		peer:    &wkPeer{msgs: make(chan wire.Message), disc: make(chan struct{}), qsig: make(chan struct{}, 8)},
-		results: make(chan *jobResult, 16), quit: make(chan struct{}), done: make(chan struct{}),
+		results: make(chan *jobResult), quit: make(chan struct{}), done: make(chan struct{}),
 		hsig: make(chan struct{}, 8), T: T, hang: hang,
 	}
 	e.w = NewWorker(e.peer).(*worker)
